@@ -1357,6 +1357,8 @@ class Interp:
             if last == 'get' and len(args) > 1 and not isinstance(deref(args[1]), (Const, IntGe)):
                 # a sub-range of the children: abstracted by the same sequence (the empty / None case iterates nothing and emits nothing)
                 return Agg('core::option::Option', 'Some', [a0d])
+            if last == 'index' and len(args) > 1 and isinstance(deref(args[1]), Agg) and 'Range' in deref(args[1]).adt:
+                return a0d
             if last in ('last', 'first') and getattr(self, 'children_edge_hint', None) and self.children_edge_hint.get(last) is not None:
                 # sequence evaluation with a known final (first) element of the iterated sub-sequence
                 return Agg('core::option::Option', 'Some', [self.children_edge_hint[last]])
